@@ -530,13 +530,15 @@ def itermergesort(sources, key, header, missing, reverse):
             for hdr, it in zip(src_hdrs, its)]
 
     # now determine key function
-    getkey = None
     if key is not None:
         # convert field selection into field indices
         indices = asindices(outhdr, key)
         # now use field indices to construct a _getkey function
         # N.B., this will probably raise an exception on short rows
         getkey = comparable_itemgetter(*indices)
+    else:
+        # compare whole rows, under the same ordering as sort()
+        getkey = Comparable
 
     # OK, do the merge sort
     for row in _shortlistmergesorted(getkey, reverse, *sits):
